@@ -22,6 +22,7 @@ type c17Op struct {
 	IDs    []int                `json:"ids,omitempty"`
 	Search *models.SearchRequest `json:"search,omitempty"`
 	Node   int                  `json:"node,omitempty"` // down/up
+	Oversize int                `json:"oversize,omitempty"` // update: 1 + index into Points of a point whose merged document exceeds the size limit (its shard rejects its part of the batch)
 }
 
 type c17Params struct {
@@ -100,7 +101,13 @@ func (c17) Generate(r *rand.Rand, tier string) (sim.Config, any) {
 				}
 				batch = append(batch, PointSpec{ID: id, Doc: d})
 			}
-			p.Ops = append(p.Ops, c17Op{Kind: "update", Entry: entry, Points: batch})
+			uop := c17Op{Kind: "update", Entry: entry, Points: batch}
+			if len(batch) > 0 && r.IntN(5) == 0 {
+				k := r.IntN(len(batch))
+				batch[k].Doc["big"] = VS(strings.Repeat("y", 3100))
+				uop.Oversize = k + 1
+			}
+			p.Ops = append(p.Ops, uop)
 		case x < 0.62:
 			var ids []int
 			seen := map[int]bool{}
@@ -342,16 +349,25 @@ func (c17) Execute(env *Env) {
 				}
 				var processed []PointSpec
 				wantFailed := map[uuid.UUID]bool{}
+				// a point whose merged document is oversized makes its shard reject its whole part of the batch
+				rejecting := ""
+				if op.Oversize > 0 {
+					big := PID(op.Points[op.Oversize-1].ID)
+					if _, live := model.Docs[big]; live && reachable(big) {
+						rejecting = member[big][0]
+						env.Stat("shard-rejected-update", 1)
+					}
+				}
 				for _, pt := range op.Points {
 					id := PID(pt.ID)
-					if _, live := model.Docs[id]; live && reachable(id) {
+					if _, live := model.Docs[id]; live && reachable(id) && member[id][0] != rejecting {
 						processed = append(processed, pt)
 					} else {
 						wantFailed[id] = true
 					}
 				}
 				model.Update(processed)
-				if msg := checkFailed(fp, wantFailed, shardsDown == 0); msg != "" {
+				if msg := checkFailed(fp, wantFailed, shardsDown == 0 && rejecting == ""); msg != "" {
 					env.Violate("wrong-answer", "failed-points:update", "%s: %s", where, msg)
 					return
 				}
